@@ -68,13 +68,21 @@ def shape_body(nslots, fixed_first=None):
             name = f"d{i}"
             if k == "none":
                 continue
+            var = 0
+            if k in ("servo", "lcd_parallel", "lcd_i2c"):
+                vs = sym_int(f"variant{i}", 0, 2)       # the optional constructor arguments given
+                var = vs.__index__() if pysym.is_sym(vs) else vs
             if k == "servo":
-                node = A.ServoDecl(name=name, pin=9 + i)
+                node = A.ServoDecl(name=name, pin=9 + i) if var == 0 else A.ServoDecl(
+                    name=name, pin=9 + i, min_angle=10.0, max_angle=170.0, min_pulse_us=1000.0, max_pulse_us=2000.0)
             elif k == "lcd_parallel":
-                node = A.LCDDecl(name=name, cols=16, rows=2, interface="parallel", rs=12, en=11, d4=5, d5=4, d6=3, d7=2)
+                extra = [{}, {"rw": 10}, {"rw": 10, "backlight_pin": 6}][var]
+                node = A.LCDDecl(name=name, cols=16 if var < 2 else 20, rows=2 if var < 2 else 4, interface="parallel",
+                                 rs=12, en=11, d4=5, d5=4, d6=3, d7=2, **extra)
                 place = 0 if place == 1 else place   # LCDs are declared before the main loop (property scope)
             elif k == "lcd_i2c":
-                node = A.LCDDecl(name=name, cols=16, rows=2, interface="i2c", i2c_addr=0x27 + i)
+                node = A.LCDDecl(name=name, cols=16 if var == 0 else 20, rows=2 if var == 0 else 4, interface="i2c",
+                                 i2c_addr=0x27 + i)
                 place = 0 if place == 1 else place
             else:
                 node = A.LedDecl(name=name, pin=2 + i)
@@ -107,12 +115,20 @@ from Reduino.Utils import sleep
 
 def script_for(shape):
     pre, loop = [], []
-    for i, (k, place) in enumerate(shape):
+    for i, el in enumerate(shape):
+        k, place = el[0], el[1]
+        var = el[2] if len(el) > 2 else 0
         name = f"d{i}"
         if k == "none":
             continue
-        text = {"servo": f"{name} = Servo({9 + i})", "lcd_parallel": f"{name} = LCD(rs=12, en=11, d4=5, d5=4, d6=3, d7=2)",
-                "lcd_i2c": f"{name} = LCD(i2c_addr={0x27 + i})", "led": f"{name} = Led({2 + i})"}[k]
+        text = {"servo": [f"{name} = Servo({9 + i})", f"{name} = Servo({9 + i}, min_angle=10, max_angle=170)",
+                          f"{name} = Servo(pin={9 + i}, min_pulse_us=1000, max_pulse_us=2000)"],
+                "lcd_parallel": [f"{name} = LCD(rs=12, en=11, d4=5, d5=4, d6=3, d7=2)",
+                                 f"{name} = LCD(rs=12, en=11, d4=5, d5=4, d6=3, d7=2, rw=10)",
+                                 f"{name} = LCD(12, 11, 5, 4, 3, 2, cols=20, rows=4, rw=10, backlight_pin=6)"],
+                "lcd_i2c": [f"{name} = LCD(i2c_addr={0x27 + i})", f"{name} = LCD(i2c_addr={0x27 + i}, cols=20, rows=4)",
+                            f"{name} = LCD(cols=20, rows=4, i2c_addr={0x27 + i})"],
+                "led": [f"{name} = Led({2 + i})"] * 3}[k][var]
         if place == 1 and k in ("servo", "led"):
             loop.append("    " + text)
         else:
@@ -140,7 +156,7 @@ def parser_link(item):
     libs = list(Reduino._collect_required_libraries(prog))
     cpp = emit(prog)
     probs = consistency(cpp, libs)
-    expect = {LIB[k] for k, _ in shape if k in LIB}
+    expect = {LIB[el[0]] for el in shape if el[0] in LIB}
     if set(libs) != expect:
         probs.append(f"requested {sorted(libs)} but the script declares devices needing {sorted(expect)}")
     if not probs:
@@ -174,17 +190,19 @@ def run(tier, seed, only=None):
                 continue
             items.append(("shape", f"shape/first={k}@{place}/slots={nslots}", nslots, (k, place)))
     import itertools
-    opts = [("none", 0)] + [(k, p) for k in ("servo", "lcd_parallel", "lcd_i2c", "led") for p in ((0, 1) if k in ("servo", "led") else (0,))]
+    opts = [("none", 0, 0)] + [(k, p, v) for k in ("servo", "lcd_parallel", "lcd_i2c", "led")
+                               for p in ((0, 1) if k in ("servo", "led") else (0,)) for v in ((0, 1, 2) if k != "led" else (0,))]
     shapes = list(itertools.product(opts, repeat=2 if tier == "quick" else 3))
     for sh in shapes:
-        items.append(("link", "link/" + "+".join(f"{k}@{p}" for k, p in sh), sh))
+        items.append(("link", "link/" + "+".join(f"{k}@{p}" + (f"v{v}" if v else "") for k, p, v in sh), sh))
     if only:
         items = [i for i in items if only in i[1]]
     results = run_obligations(items, _work)
     return finish(
         "C14", "other", tier, seed, results, t0,
         explanation="Symbolic Program shapes (<= 3 device slots; kind in {none, Servo, parallel LCD, I2C LCD, Led}; placement "
-                    "prologue / top of the main-loop body / later in the prologue - all solver-chosen integers) are run "
+                    "prologue / top of the main-loop body / later in the prologue; optional constructor arguments: none / rw pin / rw + "
+                    "backlight pin and another geometry / custom servo ranges - all solver-chosen integers) are run "
                     "through the real _collect_required_libraries/_program_contains and the real emit() under pysym: on "
                     "every path requested libraries, #include lines and global objects of the library classes must agree "
                     "(none twice, none missing).  The solver's role is exhaustive path enumeration of the configuration "
@@ -192,7 +210,7 @@ def run(tier, seed, only=None):
                     "text through parse() and the compiler front end.",
         functions_encoded=["Reduino._program_contains", "Reduino._collect_required_libraries", "Reduino.transpile.emitter.emit "
                            "(include/global stitching)", "parser LCD interface selection (through parse())"],
-        bounds={"device slots": nslots, "kinds": list(KINDS), "placements": 3, "parser-link shapes": len(shapes)},
+        bounds={"device slots": nslots, "kinds": list(KINDS), "placements": 3, "constructor variants per kind": 3, "parser-link shapes": len(shapes)},
         assumptions=["LCDs are declared before the main loop; Servos before it or at the top of its body (property scope)"],
         exhaustive=True,
     )
